@@ -1,0 +1,30 @@
+//go:build verif
+
+package hsms
+
+// This file exists only under the `verif` build tag. It exports seams of the send core for the
+// external verification harness (/verif): it adds code only and changes no production behaviour.
+
+// VerifIsSecondaryReply runs the receive dispatcher's reply discriminator (isSecondaryReply) on a
+// data message whose header bytes 2 (W-bit | stream) and 3 (function) are given.
+func VerifIsSecondaryReply(b2, b3 byte) bool {
+	var h [10]byte
+	h[2] = b2
+	h[3] = b3
+
+	return isSecondaryReply(newRawFrameDataMessage(h, nil))
+}
+
+// VerifNextSystemBytes draws n values from a fresh system-bytes generator whose counter starts at
+// start, returning them as uint32 (the generator behind SendDataMessage and NextSystemBytes).
+func VerifNextSystemBytes(start uint32, n int) []uint32 {
+	var g sysBytesGen
+	g.n.Store(start)
+
+	out := make([]uint32, n)
+	for i := range out {
+		out[i] = FromSystemBytes(g.next())
+	}
+
+	return out
+}
